@@ -256,10 +256,11 @@ def step_oracles(hist, ev, before_view, before_log, w: World, result) -> list[tu
     return out
 
 
-def explore(depth: int, maxlog: int, ctx):
+def explore(depth: int, maxlog: int, ctx, roots=((),)):
     from mc import hist as E2
 
     r = E2.bfs(
+        roots=roots,
         build=build,
         enabled=lambda w: enabled(w, maxlog),
         step=lambda w, ev: w.apply(ev),
@@ -292,6 +293,24 @@ def long_history(ctx):
             if res[0] != "ok" or {i: v.get(i) for i in want} != want:
                 viol.setdefault("C19:read-through-differs:long", {"what": f"long history, {len(w.log)} entries: view {len(v)} entries differs from controller over 0..63 ({res[0]})", "replay": {"long": True}})
     w.close()
+    # a full log read through from scratch (nothing believed before), and with only one deep position believed
+    for total in (64, 66):
+        for pre in (None, 40, 63):
+            w = World()
+            for _ in range(total):
+                w.apply(("new", False))
+            if pre is not None:
+                w.apply(("rp", pre))
+            res = w.apply(("read", 64))
+            steps += total + 2
+            v = w.view()
+            want = {i: ts(n) for i, n in enumerate(w.log[:64])}
+            if res[0] != "ok" or {i: v.get(i) for i in want} != want:
+                miss = [i for i in want if v.get(i) != want[i]]
+                viol.setdefault("C19:read-through-differs:long", {"what": f"a {total}-entry log read through from the top (prior belief: {'none' if pre is None else f'position {pre}'}): positions {miss[:5]} differ from the controller's ({res[0]})", "replay": {"long": True}})
+            for key, what in invariants(w):
+                viol.setdefault(key + ":long", {"what": f"full-log read: {what}"[:600], "replay": {"long": True}})
+            w.close()
     return steps, viol
 
 
@@ -299,6 +318,16 @@ def run(ctx) -> None:
     logcap.install()
     depth, maxlog = (7, 5) if ctx.quick else (11, 7)
     seen, transitions, viol, vcount, maxd = explore(depth, maxlog, ctx)
+    # non-initial starting states: the controller already holds K entries the library has never heard of (it was started later / every
+    # announcement was lost); from there every history to depth d2 with a deeper log allowed
+    k0, d2, maxlog2 = (4, 5, 6) if ctx.quick else (5, 7, 8)
+    roots = [tuple(("new", False) for _ in range(k)) for k in (k0, k0 + 1)]
+    seen2, tr2, viol2, vc2, maxd2 = explore(d2, maxlog2, ctx, roots=roots)
+    for k, v in viol2.items():
+        viol.setdefault(k, v)
+    vcount.update(vc2)
+    transitions += tr2
+    seen = {**{("root", k): v for k, v in seen2.items()}, **seen}
     steps, lv = long_history(ctx)
     viol.update(lv)
     ctx.vcount = dict(vcount)
@@ -314,10 +343,12 @@ def run(ctx) -> None:
         max_depth_reached=maxd,
         exhaustive=True,
         samples=samples or [[["new", True]]],
+        second_search={"roots": [len(r) for r in roots], "depth_from_root": d2, "max_log_depth": maxlog2, "states": len(seen2), "transitions": tr2, "max_depth_reached": maxd2},
         rule=f"BFS over all histories to depth {depth} of {{new entry (announcement delivered / lost), solicited reply for position 0..len, read-through "
         f"limit 64 / 2, read-through with the k-th request failing, read-through during which a new entry arrives}}; controller log depth <= {maxlog}; dedup on "
         "(controller log, FaultLog._map, FaultLog._log keys); every transition executes the real FaultLog (handle_msg / get_faultlog on the virtual loop); "
-        "+ one 70-entry history for the 64-entry limit",
+        f"+ a second BFS from non-initial states (the controller already holds {k0}/{k0 + 1} entries unknown to the library) to depth {d2}, log depth <= {maxlog2}; "
+        "+ long histories for the 64-entry limit (70 entries with periodic read-throughs; a full 64- / 66-entry log read through by a library that knows nothing / only a deep entry)",
     )
     ctx.assumptions += ["entry timestamps are unique and increasing (as the library documents)", "entries: two devices of one zone / class / fault type, fault-fault-restore-restore interleaved; active_faults is decided per device only where its known entries alternate", "every received RP reaches handle_msg before get_faultlog sees it (dispatcher order)"]
 
